@@ -16,4 +16,14 @@ PROPS = {
                     "mock staking keeper supplies TotalBondedTokens in the pure family",
                     "position of the decorator in the ante chain: fact table from app/ante.go"],
     },
+    "C06": {
+        "props_module": "LayerModel.Props.C06",
+        "families": [("median", 6000, 300000), ("mode", 3000, 100000)],
+        "gen": [],
+        "rule": "median: well-formed round (non-empty, all values parse, powers >= 1, total < 2^63) with >= 2 distinct value "
+                "spellings; mode: well-formed round in which two or more values tie for the maximal weight; distinct = distinct input lines",
+        "level_text": "Theorems for every non-empty report list (any length, powers, values): the median aggregate is a reported value with at most half of the power strictly below and at least half up to it, is the least such value (hence independent of arrival order), records the total power, lists every report once, its index names the chosen reporter; the mode value has maximal weight for every scan order covering the keys. Model tied to the real WeightedMedian/WeightedMode by differential runs over generated rounds (ties, exact-half boundaries, several spellings, malformed values); the theorem statements run as monitors on the implementation's aggregates.",
+        "level_note": "Trusted: Lean kernel; hand-written model Chain/Aggregate.lean (uses each report's own value where the code reads values[reporter]: equal for distinct reporters, which the store key guarantees and the generator respects); big.Int.SetString(_,16) modelled by parseHex and differential-tested; the `for i < power` loop of the mode is modelled by its sum (gas/time cost not modelled).",
+        "trusted": ["model Chain/Aggregate.lean written by hand", "parseHex models big.Int.SetString(s,16)", "reporters distinct within a round (store key)"],
+    },
 }
